@@ -302,4 +302,148 @@ def deepBound (pops : List Pop) : Rat :=
   deepEps (deepDepth pops) (maxOf (pops.map (·.nseq)))
     + (pops.length : Rat) * deepDelta (deepDepth pops) (maxOf (pops.map (·.nsub)))
 
+/-! ### the simulated regime: `simulate_GATK_multisample_calling` as a deterministic function of its random draws
+
+Everything random in the simulator is a *draw*: the depth of every individual at every locus (`cov_sampling.rvs`), the number of
+alternative reads of every heterozygote (`ss.binom.rvs(depth, 0.5)`) and the permutation `rng.permuted` used to subsample the
+called genotypes.  Given the draws, a simulated table is the table of empirical frequencies of the calling procedure: reads →
+polymorphism filter → genotype calls → enough-calls filter → subsampling → histogram → division by the total.  The closed
+steps are the generated `Gen.LowPass.sim*`; the harness records the draws of the real run and hands them to `simTable`. -/
+
+/-- the draws of one individual at one locus: (depth, binomial draw of alternative reads — used for heterozygotes only) -/
+abbrev IndDraw := Nat × Nat
+
+/-- the draws for one aggregate genotype partition (one configuration per population): for every locus and population the
+    individuals' draws; for every population the subsampling selections — positions among the sorted called genotypes, one
+    list per row that `subsample_genotypes_1D` returns, in the order it returns them -/
+structure BlockDraw where
+  loci : List (List (List IndDraw))
+  sels : List (List (List Nat))
+
+def isum : List Int → Int
+  | [] => 0
+  | a :: l => a + isum l
+
+/-- genotype calls of one population at one locus (`genotype_calls`), from genotypes and draws -/
+def simCalls (gs : List Nat) (rs : List IndDraw) : List Int :=
+  List.zipWith (fun g r => simCall (simNRef (g : Nat) (r.1 : Nat) (r.2 : Nat)) (simNAlt (g : Nat) (r.1 : Nat) (r.2 : Nat))) gs rs
+
+/-- alternative reads of one population at one locus -/
+def simAlt (gs : List Nat) (rs : List IndDraw) : Int :=
+  isum (List.zipWith (fun g r => simNAlt (g : Nat) (r.1 : Nat) (r.2 : Nat)) gs rs)
+
+/-- `numpy.count_nonzero(genotype_calls != 99)` -/
+def simCalled (calls : List Int) : Nat := calls.countP (fun v => v != simNoCall)
+
+/-- one surviving locus as seen by one population: number of called individuals, the calls in individual order, and
+    `numpy.sort(genotype_calls)[:calls]` -/
+structure PopCalls where
+  nCalled : Nat
+  calls : List Int
+  sorted : List Int
+
+def insertInt (a : Int) : List Int → List Int
+  | [] => [a]
+  | b :: l => if a ≤ b then a :: b :: l else b :: insertInt a l
+
+/-- `numpy.sort` of one row -/
+def sortInt (l : List Int) : List Int := l.foldr insertInt []
+
+def mkPopCalls (calls : List Int) : PopCalls :=
+  { nCalled := simCalled calls, calls := calls, sorted := (sortInt calls).take (simCalled calls) }
+
+/-- stable insertion of a locus into the list ordered by its number of calls (`for calls in numpy.sort(numpy.unique(n_called))`
+    with `sorted_genotype_calls[n_called == calls]` keeps the original order inside a group) -/
+def insertByCalled (x : PopCalls) : List PopCalls → List PopCalls
+  | [] => [x]
+  | y :: l => if x.nCalled ≤ y.nCalled then x :: y :: l else y :: insertByCalled x l
+
+def regroup (l : List PopCalls) : List PopCalls := l.foldr insertByCalled []
+
+/-- the column `called_freqs[:, pop]` of one block: without subsampling the sum of all calls, with subsampling the loci are
+    regrouped by number of calls (too few calls: skipped) and the k-th row sums the genotypes at the k-th selection -/
+def popFreqs (nseq nsub : Nat) (loci : List PopCalls) (sels : List (List Nat)) : List Int :=
+  if simSubsamples (nsub : Nat) (nseq : Nat) then
+    let rows := (regroup loci).filter fun x => !simSubSkip (x.nCalled : Nat) (nsub : Nat)
+    List.zipWith (fun x sel => isum (sel.map fun k => x.sorted.getD k 0)) rows sels
+  else loci.map fun x => isum x.calls
+
+/-- rows of a matrix given by its columns; `none` if the columns have different lengths (numpy would refuse the store) -/
+def transposeCols (n : Nat) : List (List Int) → Option (List (List Int))
+  | [] => some (List.replicate n [])
+  | c :: cs =>
+    if c.length ≠ n then none else
+      match transposeCols n cs with
+      | none => none
+      | some rows => some (List.zipWith (fun a r => a :: r) c rows)
+
+/-- the multi-indices one block contributes to `output_freqs` (one per locus; entry 0…0 for a locus without enough alternative
+    reads or without enough calls), as integer rows: `none` when the draws do not fit the sizes -/
+def blockRows (pops : List Pop) (gss : List (List Nat)) (b : BlockDraw) : Option (List (List Int)) :=
+  let zero : List Int := pops.map fun _ => 0
+  let talt := fun (loc : List (List IndDraw)) => isum (List.zipWith simAlt gss loc)
+  let nDrop := b.loci.countP fun loc => simDrop (talt loc)
+  let kept := b.loci.filter fun loc => simKeep (talt loc)
+  let callsOf := fun (loc : List (List IndDraw)) => List.zipWith simCalls gss loc
+  let enough := fun (loc : List (List IndDraw)) =>
+    (List.zipWith (fun (cs : List Int) (p : Pop) => simEnough (simCalled cs : Nat) (p.nsub : Nat)) (callsOf loc) pops).all id
+  let nFew := kept.countP fun loc => !enough loc
+  let surv := (kept.filter enough).map callsOf
+  let cols := (List.range pops.length).map fun k =>
+    popFreqs ((pops.getD k ⟨[], 0, 0, 0⟩).nseq) ((pops.getD k ⟨[], 0, 0, 0⟩).nsub)
+      (surv.map fun cs => mkPopCalls (cs.getD k [])) (b.sels.getD k [])
+  match transposeCols surv.length cols with
+  | none => none
+  | some rows => some (List.replicate (nDrop + nFew) zero ++ rows)
+
+/-- `numpy.histogramdd(called_freqs, bins=[arange(nsub+2) - 0.5 …])`: a row is counted iff every component is one of 0..nsub -/
+def toBoxIdx : List Nat → List Int → Option (List Nat)
+  | [], [] => some []
+  | n :: ns, v :: vs =>
+    if 0 ≤ v ∧ v.toNat < n then (toBoxIdx ns vs).map (v.toNat :: ·) else none
+  | _, _ => none
+
+/-- the aggregate partitions of an allele-count tuple: `itertools.product` of the populations' partitions, probabilities multiplied -/
+def aggParts : List Pop → List Nat → List (List (List Nat) × Rat)
+  | p :: ps, a :: as => (pw a (p.nseq / 2) p.F).flatMap fun gp => (aggParts ps as).map fun r => (gp.1 :: r.1, gp.2 * r.2)
+  | _, _ => [([], 1)]
+
+/-- all binned multi-indices of one simulated table (`none`: the draws do not fit) -/
+def simBinned (pops : List Pop) (af : List Nat) (blocks : List BlockDraw) : Option (List (List Nat)) :=
+  let parts := aggParts pops af
+  if parts.length ≠ blocks.length then none else
+    let shape := pops.map fun p => p.nsub + 1
+    (List.zipWith (fun (gp : List (List Nat) × Rat) b => blockRows pops gp.1 b) parts blocks).foldr
+      (fun r acc => match r, acc with
+        | some rows, some l => some (rows.filterMap (toBoxIdx shape) ++ l)
+        | _, _ => none) (some [])
+
+/-- `output_freqs / numpy.sum(output_freqs)` at entry `j`, from the list of binned multi-indices -/
+def tableOf (binned : List (List Nat)) (j : List Nat) : Rat :=
+  ((binned.count j : Nat) : Rat) / ((binned.length : Nat) : Rat)
+
+/-- **a simulated table**: `simulate_GATK_multisample_calling(cov, af, nseq, nsub, nsim, Fx)[j]` for the given draws
+    (0 everywhere when the draws do not fit or no locus is simulated — the code would return nan) -/
+def simTable (pops : List Pop) (af : List Nat) (blocks : List BlockDraw) (j : List Nat) : Rat :=
+  match simBinned pops af blocks with
+  | some binned => tableOf binned j
+  | none => 0
+
+/-- number of loci the code simulates for each aggregate partition: `int(nsim * probability)` -/
+def simCounts (pops : List Pop) (af : List Nat) (nsim : Rat) : List Int :=
+  (aggParts pops af).map fun gp => simCount nsim gp.2
+
+/-- the draws are possible outcomes of the sampling statements: every depth has positive probability, a heterozygote's
+    alternative reads do not exceed its depth, the sizes fit, every selection picks nsub/2 distinct called genotypes -/
+def drawsFit (pops : List Pop) (af : List Nat) (blocks : List BlockDraw) : Bool :=
+  let parts := aggParts pops af
+  parts.length == blocks.length &&
+  (List.zipWith (fun (gp : List (List Nat) × Rat) (b : BlockDraw) =>
+    b.loci.all (fun loc => loc.length == pops.length &&
+      (List.zipWith (fun (p : Pop) (x : List Nat × List IndDraw) => x.1.length == x.2.length &&
+        x.2.all (fun r => decide (covAt p.c r.1 ≠ 0) && decide (r.2 ≤ r.1))) pops (List.zip gp.1 loc)).all id) &&
+    b.sels.length == pops.length &&
+    (List.zipWith (fun (p : Pop) (ss : List (List Nat)) =>
+      ss.all (fun sel => sel.length == p.nsub / 2 && sel.eraseDups.length == sel.length)) pops b.sels).all id) parts blocks).all id
+
 end DadiVerif.LowPass
